@@ -130,11 +130,21 @@ void harness(void) {
 #ifdef KEYSET      /* iteration queries: concrete key family (symex folds the 16-way link scans), values stay symbolic */
 		{ static const uint64_t ks_[] = KEYSET; static const int os_[] = OPSET; k = ks_[s]; op = os_[s]; }
 #endif
-		VP_NATIVE_ONLY(if(getenv("VP_RANDOM")) { op = (unsigned)op % 3; if(k & 1) k = (k >> 1) & 0x1F; else if(k & 2) k = (k >> 8) << 56 | ((k >> 2) & 0xFF); })
+	#ifdef PREKEYS     /* concrete first two keys (a concrete pre-state: symex folds the first two operations), the third operation stays fully symbolic */
+		if(s < 2) { static const uint64_t pk_[] = PREKEYS; k = pk_[s]; op = 0; }
+#endif
+	VP_NATIVE_ONLY(if(getenv("VP_RANDOM")) { op = (unsigned)op % 3; if(k & 1) k = (k >> 1) & 0x1F; else if(k & 2) k = (k >> 8) << 56 | ((k >> 2) & 0xFF); })
 		VP_ASSUME(op >= 0 && op <= 2);
 		if(s == 0) VP_ASSUME(op == 0);
 #ifdef NIBBLE
 		if(s == 1) { VP_ASSUME(op == 0); VP_ASSUME(((rk[0] ^ k) >> (60 - 4 * NIBBLE)) != 0 && ((rk[0] ^ k) >> (60 - 4 * NIBBLE)) < 16); }   /* first difference exactly at nibble NIBBLE */
+#endif
+#ifdef THIRD_MASK       /* third operation on a concrete two-key tree (PREKEYS): the nibbles of the key that steer the descent are concrete (THIRD_BITS under THIRD_MASK), the rest of the key is arbitrary */
+		if(s == 2) { k = (k & ~THIRD_MASK) | THIRD_BITS;
+#ifdef THIRD_DIFF       /* ... and its first difference from the first key is exactly at nibble THIRD_DIFF */
+			VP_ASSUME(((rk[0] ^ k) >> (60 - 4 * THIRD_DIFF)) != 0 && ((rk[0] ^ k) >> (60 - 4 * THIRD_DIFF)) < 16);
+#endif
+		}
 #endif
 #ifdef SAMELEAF
 		if(s == 1) { VP_ASSUME(op == 0); VP_ASSUME((rk[0] ^ k) != 0 && (rk[0] ^ k) < 16); }
@@ -166,10 +176,14 @@ void harness(void) {
 		in_writer_op = 0; cur_key_valid = 0;
 		for(int j = 0; j < K; j++) pre_present[j] = j < rn && rp[j];
 		reader_view();
+#ifndef C10_LEAN      /* the structure / stability obligations are C09's; a lean C10 query keeps only the publication obligations */
 		check_structure();
+#endif
 		/* address stability and content of every present value after every operation */
+#ifndef C10_LEAN
 		for(int j = 0; j < K; j++) if(j < rn && rp[j]) { VP_ASSERT(rx_find(&T, rk[j]) == ra[j], "a present key is no longer found at its address"); VP_ASSERT(*ra[j] == rv[j], "a stored value changed"); }
 		for(int j = 0; j < K; j++) if(j < rn && !rp[j]) VP_ASSERT(rx_find(&T, rk[j]) == 0, "an erased key is still found");
+#endif
 		VP_OBSERVE(rn * 10 + ins);
 	}
 	/* (i) arbitrary probe key */
